@@ -23,6 +23,7 @@ type CheckOpts struct {
 	Verbose  bool
 	NoEvidence bool
 	AllFuncs bool // ignore property filter (debugging)
+	OutDir   string // where evidence/ and replays/ go (default: VerifDir)
 }
 
 type KnownFinding struct {
@@ -221,6 +222,9 @@ type Evidence struct {
 func RunCheck(opts *CheckOpts) int {
 	start := time.Now()
 	prop := opts.Prop
+	if opts.OutDir == "" {
+		opts.OutDir = opts.VerifDir
+	}
 	fail := func(format string, a ...any) int {
 		fmt.Printf("BROKEN property=%s reason=%s\n", prop, fmt.Sprintf(format, a...))
 		return 2
@@ -322,7 +326,7 @@ func RunCheck(opts *CheckOpts) int {
 		os.MkdirAll(opts.KeepSMT, 0o755)
 	}
 	if opts.Only == "" {
-		os.RemoveAll(filepath.Join(opts.VerifDir, "replays", prop))
+		os.RemoveAll(filepath.Join(opts.OutDir, "replays", prop))
 	}
 	results := make([]*oblResult, len(todo))
 	var wg sync.WaitGroup
@@ -345,7 +349,7 @@ func RunCheck(opts *CheckOpts) int {
 	var knownLines []string
 	solverWins := map[string]int{}
 	var totalMs, maxMs int64
-	replayDir := filepath.Join(opts.VerifDir, "replays", prop)
+	replayDir := filepath.Join(opts.OutDir, "replays", prop)
 	for _, r := range reports {
 		if r.Err != "" {
 			exit = 1
@@ -500,7 +504,7 @@ func decide(o *Obligation, cfg *SolverCfg, known []KnownFinding, prop string, op
 		r.Status = "undecided"
 	}
 	// replay file
-	dir := filepath.Join(opts.VerifDir, "replays", prop)
+	dir := filepath.Join(opts.OutDir, "replays", prop)
 	os.MkdirAll(dir, 0o755)
 	path := filepath.Join(dir, sanitize(o.Name)+".json")
 	rec := map[string]any{
@@ -577,6 +581,9 @@ func writeEvidence(opts *CheckOpts, prog *Program, reports []*FnReport, results 
 	if samples == nil {
 		samples = []any{}
 	}
+	if knownLines == nil {
+		knownLines = []string{}
+	}
 	ev := Evidence{
 		PropertyID: opts.Prop, Tier: opts.Tier, Seed: opts.Seed, Level: "proof",
 		Coverage: map[string]any{
@@ -609,7 +616,62 @@ func writeEvidence(opts *CheckOpts, prog *Program, reports []*FnReport, results 
 			}
 		}
 	}
-	dir := filepath.Join(opts.VerifDir, "evidence")
+	dir := filepath.Join(opts.OutDir, "evidence")
 	os.MkdirAll(dir, 0o755)
 	writeJSON(filepath.Join(dir, opts.Prop+".json"), ev)
+}
+
+// Warmup loads every package with contract files once so that export data is in
+// the build cache.
+func Warmup(repo string) int {
+	dirs := contractDirs(repo)
+	if len(dirs) == 0 {
+		fmt.Println("warmup: no contract files")
+		return 0
+	}
+	if _, err := Load(repo, dirs); err != nil {
+		fmt.Println("warmup:", err)
+		return 1
+	}
+	fmt.Printf("warmup: loaded %d packages\n", len(dirs))
+	return 0
+}
+
+// RunReplayFile re-runs the Go test stored next to a replay record.
+func RunReplayFile(path, verifDir, repoDir string) int {
+	b, err := os.ReadFile(path)
+	if err != nil {
+		fmt.Println(err)
+		return 2
+	}
+	var rec map[string]any
+	if err := json.Unmarshal(b, &rec); err != nil {
+		fmt.Println(err)
+		return 2
+	}
+	fmt.Printf("obligation: %v\nclause: %v\nstatus: %v\nreplay outcome: %v\n", rec["obligation"], rec["clause"], rec["status"], rec["replay_outcome"])
+	tp, _ := rec["replay_test"].(string)
+	if tp == "" {
+		fmt.Printf("no replay test stored; solver output:\n%v\n", rec["solver_output"])
+		return 0
+	}
+	src, err := os.ReadFile(tp)
+	if err != nil {
+		fmt.Println(err)
+		return 2
+	}
+	fn, _ := rec["function"].(string)
+	pkgDir := fn
+	if i := strings.LastIndex(fn, "/"); i >= 0 {
+		rest := fn[i+1:]
+		pkgDir = fn[:i+1] + strings.SplitN(rest, ".", 2)[0]
+	} else {
+		pkgDir = strings.SplitN(fn, ".", 2)[0]
+	}
+	out, err := runOverlayTest(repoDir, pkgDir, string(src))
+	fmt.Println(out)
+	if err != nil {
+		return 1
+	}
+	return 0
 }
